@@ -218,11 +218,12 @@ impl E1 {
         let _ = writeln!(s, "    match (unit, kind, name) {{");
         for (ui, u) in case.units.iter().enumerate() {
             let m = u.op_name.to_snake_case();
-            let _ = writeln!(s, "        ({}, \"response\", _) => {{ let v: {}::ResponseData = serde_json::from_value(input).map_err(|e| e.to_string())?; serde_json::to_value(&v).map_err(|e| format!(\"__SER__ {{}}\", e)) }}", ui, m);
+            // both entry points users have: a parsed Value and JSON text (reqwest's `.json()`); they must agree
+            let _ = writeln!(s, "        ({}, \"response\", _) => {{ let text = input.to_string(); let t: Result<{}::ResponseData, _> = serde_json::from_str(&text); let v: {}::ResponseData = match serde_json::from_value(input) {{ Ok(v) => {{ if let Err(e) = &t {{ return Err(format!(\"__TEXT_VALUE_MISMATCH__ from_value accepts, from_str rejects: {{}}\", e)); }} v }}, Err(e) => {{ if t.is_ok() {{ return Err(format!(\"__TEXT_VALUE_MISMATCH__ from_str accepts, from_value rejects: {{}}\", e)); }} return Err(e.to_string()); }} }}; let out = serde_json::to_value(&v).map_err(|e| format!(\"__SER__ {{}}\", e))?; let out_t = serde_json::to_value(&t.unwrap()).map_err(|e| format!(\"__SER__ {{}}\", e))?; if out != out_t {{ return Err(format!(\"__TEXT_VALUE_MISMATCH__ different values: {{}} vs {{}}\", out, out_t)); }} Ok(out) }}", ui, m, m);
             let _ = writeln!(s, "        ({}, \"variables\", _) => {{ let v: {}::Variables = serde_json::from_value(input).map_err(|e| e.to_string())?; let b = <{} as graphql_client::GraphQLQuery>::build_query(v); serde_json::to_value(&b).map_err(|e| format!(\"__SER__ {{}}\", e)) }}", ui, m, u.struct_name);
             let _ = writeln!(s, "        ({}, \"consts\", _) => Ok(serde_json::json!({{\"query\": {}::QUERY, \"operation_name\": {}::OPERATION_NAME}})),", ui, m, m);
             for (gname, rpath) in &u.enums {
-                let _ = writeln!(s, "        ({}, \"enum\", {}) => {{ let v: {} = serde_json::from_value(input).map_err(|e| e.to_string())?; Ok(serde_json::json!({{\"ser\": serde_json::to_value(&v).map_err(|e| format!(\"__SER__ {{}}\", e))?, \"dbg\": format!(\"{{:?}}\", v)}})) }}", ui, rust_str(gname), rpath);
+                let _ = writeln!(s, "        ({}, \"enum\", {}) => {{ let text = input.to_string(); let t: Result<{}, _> = serde_json::from_str(&text); let v: {} = match serde_json::from_value(input) {{ Ok(v) => {{ if let Err(e) = &t {{ return Err(format!(\"__TEXT_VALUE_MISMATCH__ from_value accepts, from_str rejects: {{}}\", e)); }} v }}, Err(e) => {{ if t.is_ok() {{ return Err(format!(\"__TEXT_VALUE_MISMATCH__ from_str accepts, from_value rejects: {{}}\", e)); }} return Err(e.to_string()); }} }}; Ok(serde_json::json!({{\"ser\": serde_json::to_value(&v).map_err(|e| format!(\"__SER__ {{}}\", e))?, \"dbg\": format!(\"{{:?}}\", v)}})) }}", ui, rust_str(gname), rpath, rpath);
             }
         }
         let _ = writeln!(s, "        _ => Err(\"__NOVECTOR__\".to_string()),");
